@@ -394,6 +394,9 @@ class AbstractSeq:
             return self.last
         if isinstance(self.first, Sym) and isinstance(self.last, Sym) and self.first.n == self.last.n:
             return self.first      # geomspace(a, a, k)[i] = a
+        if isinstance(i, Sym) and isinstance(self.first, Sym) and isinstance(self.last, Sym):
+            _used(f"np.{self.what} with symbolic length: interior elements are uninterpreted functions of (first, last, index)")
+            return T.app(f"{self.what}_element", self.first, self.last, i)
         raise Unsupported(f"element {i} of an abstract {self.what} sequence")
 
     def __iter__(self):
